@@ -409,6 +409,7 @@ class InterleaveProfile:
                 "barrier": barrier, "bars": bars,
                 # in schedule 0 every client event may arrive inside a backlog of other clients' traffic
                 "padded": [rnd.choice([0, 20, 60, 90, 100, 120, 200]) for _ in range(7)] if rnd.random() < 0.3 else None,
+                "stalled": rnd.random() < 0.35,     # (with "padded": the backlog is requests for reports and the peer reads slowly)
                 # schedule 0 may be preceded by hundreds or thousands of unrelated short-lived clients
                 "prelude": rnd.choice([0, 0, 0, 0, 0, 0, 300, 300, 4200]) if tier == "quick" else rnd.choice([0, 0, 0, 300, 4200, 70000])}
         return plan, self.run(plan, tag)
@@ -485,9 +486,11 @@ class InterleaveProfile:
             order.append(k)
         return order
 
-    def run_order(self, cfg, convs, order, tag, prelude=0, barrier=None, padded=None):
+    def run_order(self, cfg, convs, order, tag, prelude=0, barrier=None, padded=None, stalled=False):
         """-> (per-conversation projection, result)"""
-        ex = Exec(cfg, tag=tag, prop="C07")
+        # stalled: the server channel is one socket (stdin and stdout of the daemon are the same description) whose
+        # peer is slow to read while the backlog of each padded step is being answered
+        ex = Exec(cfg, tag=tag, prop="C07", env={"VERIF_SOCKPAIR": "1"} if stalled else None)
         proj = [[] for _ in convs]
         if ex.res.infra:
             return proj, ex.finish()
@@ -550,6 +553,8 @@ class InterleaveProfile:
                     op = dict(op, inst=("tag:" + me.tag) if (me is not None and me.ended is not None and me.tag) else "nobody")
             if padded and op["op"] in ("announce", "cli") and not op.get("seg"):
                 op = dict(op, pad=[padded[(len(ex.res.outputs) * 2) % len(padded)], padded[(len(ex.res.outputs) * 2 + 1) % len(padded)]])
+                if stalled:
+                    op["padkind"] = "stats"
             ok = apply_conv_op(ex, op, me)
             if op["op"] == "announce" and ex.w.all and ex.w.all[-1].cid == op["cid"]:
                 inst_of[k] = ex.w.all[-1]
@@ -599,7 +604,8 @@ class InterleaveProfile:
                 results.append(rs)
             else:
                 pj, rs = self.run_order(cfg, convs, order, tag + "m%d" % n, prelude=plan.get("prelude", 0) if n == 0 else 0,
-                                        barrier=plan.get("barrier"), padded=plan.get("padded") if n == 0 else None)
+                                        barrier=plan.get("barrier"), padded=plan.get("padded") if n == 0 else None,
+                                        stalled=bool(plan.get("stalled")) and n == 0)
                 projs.append(pj)
                 results.append(rs)
         res = results[0] if results else proto.Result()
@@ -632,6 +638,7 @@ class InterleaveProfile:
         res.extra["with_timeouts"] = int(bool(cfg.get("timeout")))
         res.extra["conversations_taking_over_an_id"] = len(plan.get("after") or {})
         res.extra["schedules_with_client_lines_inside_a_backlog"] = int(bool(plan.get("padded")))
+        res.extra["schedules_on_one_socket_with_a_slow_peer"] = int(bool(plan.get("padded")) and bool(plan.get("stalled")))
         res.extra["evaluations_with_a_table_reload_at_fixed_per_client_positions"] = int(bool(plan.get("barrier")))
         res.extra["schedules_after_a_crowd_of_earlier_clients"] = int(bool(plan.get("prelude")))
         res.extra["late_replies_for_departed_clients"] = sum(1 for c in convs for op in c if op.get("late"))
